@@ -75,3 +75,16 @@ package accounts
 //@   requires a != nil
 //@   ensures nonce(a, address) == nonce
 //@   modifies nonce(a, address), accountsCache
+
+//@ # ---------------------------------------------------------------- multisig weights (C05, C07)
+//@ # the weight of the first matching owner, 0 for a stranger; never indexes past the weights (state invariant: as many
+//@ # weights as owners, established by the length test of CreateMultisig/EditMultisig)
+//@ func (*Multisig).GetWeight
+//@   serves C05 C07
+//@   nopanic
+//@   requires m != nil && len(m.Addresses) == len(m.Weights)
+//@   ensures stranger: (forall i int :: 0 <= i && i < len(m.Addresses) ==> m.Addresses[i] != address) ==> result == 0
+//@   ensures member: forall i int :: 0 <= i && i < len(m.Addresses) && m.Addresses[i] == address && (forall j int :: 0 <= j && j < i ==> m.Addresses[j] != address) ==> result == m.Weights[i]
+//@   modifies nothing
+//@   loop 0 invariant idx: -1 <= rangeindex && rangeindex < len(m.Addresses)
+//@   loop 0 invariant none: forall j int :: 0 <= j && j <= rangeindex ==> m.Addresses[j] != address
